@@ -160,7 +160,7 @@ type atom struct {
 	text string
 }
 
-var patWords = []string{"foo", "bar", "Foo", "BAR", "baz", "qux", "a", "b", "ab", "x y", "café", "Éa", "e", "naïve", "日本", "a-b", "f_o", "1", "42", "/", ".go", "src", "ǅ", "o'c", "x$y", "a^b", "a|b", "i!"}
+var patWords = []string{"aab", "aaab", "abab", "ababc", "1.1.1.2", "foo", "bar", "Foo", "BAR", "baz", "qux", "a", "b", "ab", "x y", "café", "Éa", "e", "naïve", "日本", "a-b", "f_o", "1", "42", "/", ".go", "src", "ǅ", "o'c", "x$y", "a^b", "a|b", "i!"}
 
 func renderAtom(a atom, fuzzy bool) string {
 	t := strings.ReplaceAll(a.text, " ", "\\ ")
@@ -259,6 +259,18 @@ func renderAST(sets [][]atom, fuzzy bool) string {
 func genLines(r *rand.Rand) []string {
 	n := r.Intn(8)
 	lines := []string{}
+	if r.Intn(5) == 0 {
+		// lines over a two-letter alphabet: terms sampled from them overlap with themselves, so an
+		// occurrence can start inside a partial match that fails
+		for i := 0; i < 2+r.Intn(5); i++ {
+			var sb strings.Builder
+			for k := 0; k < 3+r.Intn(7); k++ {
+				sb.WriteByte("aab"[r.Intn(3)])
+			}
+			lines = append(lines, sb.String()+[]string{"", "b", "ab", " aab"}[r.Intn(4)])
+		}
+		return lines
+	}
 	for i := 0; i < n; i++ {
 		k := r.Intn(5)
 		parts := []string{}
